@@ -59,7 +59,8 @@ def gen_history(rng, n_ops: int) -> List[tuple]:
             else:
                 d = {}
                 for k in rng.sample(KEYS, rng.choice([1, 1, 2, 3])):
-                    d[k] = rng.choice([1, 2, 3, 0, "fast", "slow", "x", ""])  # falsy values are values too
+                    # falsy values are values too; 1 / True / 1.0 and 0 / False are equal but not the same value
+                    d[k] = rng.choice([1, 2, 3, 0, "fast", "slow", "x", "", True, False, 1.0, 1, 0])
             last_q = d
             q_hist.append(d)
             ops.append(("qmeta", s, d))
